@@ -154,7 +154,8 @@ pub fn ryu_text(x: f64) -> String {
     lexpr::to_string(&lexpr::Value::from(x)).unwrap_or_default()
 }
 
-pub fn check_value(mv: &MV) -> CaseResult {
+/// Core oracle: Ok(printed text) or Err((stage signature, message)).
+pub fn eval_value(mv: &MV) -> Result<String, (String, String)> {
     let expected = mv.normalize();
     let v = mv.to_value();
     // ---- print entry points
@@ -172,50 +173,35 @@ pub fn check_value(mv: &MV) -> CaseResult {
     let printed = match printed {
         Ok(p) => p,
         Err(p) => {
-            return Err(fail(
-                format!("stage=print-panic msg={}", panic_sig(&p)),
-                format!("printing panicked: {}", p),
-                mv,
-            ))
+            return Err((format!("stage=print-panic msg={}", panic_sig(&p)),
+                format!("printing panicked: {}", p)))
         }
     };
     let text = match &printed[0].1 {
         Ok(t) => t.clone(),
         Err(e) => {
-            return Err(fail(
-                "stage=print-error entry=to_string".into(),
-                format!("to_string failed: {}", e),
-                mv,
-            ))
+            return Err(("stage=print-error entry=to_string".into(),
+                format!("to_string failed: {}", e)))
         }
     };
     for (name, r) in printed.iter().skip(1) {
         match r {
             Ok(t) if *t == text => {}
             Ok(t) => {
-                return Err(fail(
-                    format!("stage=print-mismatch entry={}", name),
-                    format!("{} gave {:?} but to_string gave {:?}", name, bytes_lossy(t), bytes_lossy(&text)),
-                    mv,
-                ))
+                return Err((format!("stage=print-mismatch entry={}", name),
+                    format!("{} gave {:?} but to_string gave {:?}", name, bytes_lossy(t), bytes_lossy(&text))))
             }
             Err(e) => {
-                return Err(fail(
-                    format!("stage=print-error entry={}", name),
-                    format!("{} failed: {}", name, e),
-                    mv,
-                ))
+                return Err((format!("stage=print-error entry={}", name),
+                    format!("{} failed: {}", name, e)))
             }
         }
     }
     let text_str = match String::from_utf8(text.clone()) {
         Ok(s) => s,
         Err(_) => {
-            return Err(fail(
-                "stage=print-not-utf8".into(),
-                format!("printed text is not UTF-8: {}", bytes_lossy(&text)),
-                mv,
-            ))
+            return Err(("stage=print-not-utf8".into(),
+                format!("printed text is not UTF-8: {}", bytes_lossy(&text))))
         }
     };
     // ---- parse entry points
@@ -231,11 +217,8 @@ pub fn check_value(mv: &MV) -> CaseResult {
     let parsed = match parsed {
         Ok(p) => p,
         Err(p) => {
-            return Err(fail(
-                format!("stage=parse-panic msg={}", panic_sig(&p)),
-                format!("parsing {:?} panicked: {}", clip(&text_str, 300), p),
-                mv,
-            ))
+            return Err((format!("stage=parse-panic msg={}", panic_sig(&p)),
+                format!("parsing {:?} panicked: {}", clip(&text_str, 300), p)))
         }
     };
     let n_err = parsed.iter().filter(|(_, r)| r.is_err()).count();
@@ -243,25 +226,19 @@ pub fn check_value(mv: &MV) -> CaseResult {
         match r {
             Err(e) => {
                 let entry = if n_err == parsed.len() { "all" } else { name };
-                return Err(fail(
-                    format!(
+                return Err((format!(
                         "stage=parse-error entry={} tok={} err={}",
                         entry,
                         shape_at_error(&text, e),
                         err_text(e)
                     ),
-                    format!("{} rejected printer output {:?}: {}", name, clip(&text_str, 300), e),
-                    mv,
-                ));
+                    format!("{} rejected printer output {:?}: {}", name, clip(&text_str, 300), e)));
             }
             Ok(w) => {
                 let got = MV::from_value(w);
                 if let Some((kind, d)) = mv_diff(&expected, &got, &fl) {
-                    return Err(fail(
-                        format!("stage=value-mismatch entry={} kind={}", if n_err == 0 { "any" } else { name }, kind),
-                        format!("{} read {:?} back differently: {}", name, clip(&text_str, 300), d),
-                        mv,
-                    ));
+                    return Err((format!("stage=value-mismatch entry={} kind={}", if n_err == 0 { "any" } else { name }, kind),
+                        format!("{} read {:?} back differently: {}", name, clip(&text_str, 300), d)));
                 }
             }
         }
@@ -269,24 +246,35 @@ pub fn check_value(mv: &MV) -> CaseResult {
     // ---- independent reader
     match reader::read_one(&text_str, &POpt::default_set()) {
         Err(e) => {
-            return Err(fail(
-                format!("stage=ref-reader-error why={}", shape(&e.split(" at byte").next().unwrap_or("").replace(|c: char| c == '"', ""))),
-                format!("independent R7RS reader rejects printer output {:?}: {}", clip(&text_str, 300), e),
-                mv,
-            ))
+            return Err((format!("stage=ref-reader-error why={}", shape(&e.split(" at byte").next().unwrap_or("").replace(|c: char| c == '"', ""))),
+                format!("independent R7RS reader rejects printer output {:?}: {}", clip(&text_str, 300), e)))
         }
         Ok(m) => {
             if let Some((kind, d)) = mv_diff(&expected, &m, &exact) {
-                return Err(fail(
-                    format!("stage=ref-reader-mismatch kind={}", kind),
-                    format!("independent R7RS reader reads {:?} differently: {}", clip(&text_str, 300), d),
-                    mv,
-                ));
+                return Err((format!("stage=ref-reader-mismatch kind={}", kind),
+                    format!("independent R7RS reader reads {:?} differently: {}", clip(&text_str, 300), d)));
             }
         }
     }
-    let nt = mv.is_composite() || atom_text_nontrivial(mv, &text_str);
-    Ok(Eval::new(nt, digest_of(mv)).classes(&classes_of(mv)))
+    Ok(text_str)
+}
+
+pub fn check_value(mv: &MV) -> CaseResult {
+    match eval_value(mv) {
+        Ok(text) => {
+            let nt = mv.is_composite() || atom_text_nontrivial(mv, &text);
+            Ok(Eval::new(nt, digest_of(mv)).classes(&classes_of(mv)))
+        }
+        Err((sig, msg)) => {
+            let min = minimise(mv, &|c| matches!(eval_value(c), Err((s, _)) if s == sig));
+            let min_text = lexpr::to_string(&min.to_value()).unwrap_or_default();
+            Err(fail(
+                format!("{} min={}", sig, crate::props::c02::min_repr(&min, &min_text)),
+                format!("{} (smallest still failing: {:?})", msg, clip(&min_text, 80)),
+                mv,
+            ))
+        }
+    }
 }
 
 fn cfg(tier: Tier) -> ValueCfg {
